@@ -119,3 +119,17 @@ Definition serve_headers (H : N) (hashmode : bool) (origin : option N) (amount s
   | None => []
   | Some o => hdr_loop 200 H hashmode reverse amount skip o 0
   end.
+
+(* aqua/downloader/queue.go DeliverHeaders: a skeleton-fill delivery is accepted only if a request of
+   that peer is pending, exactly MaxHeaderFetch headers came, the first has the requested number,
+   the last is the skeleton's target header, and numbers and parent links are contiguous:
+     pending   a fetchRequest of the peer is in headerPendPool (else errNoFetchesPending)
+     count     len(headers)
+     first_ok  headers[0].Number == request.From
+     last_ok   headers[last].Hash() == the skeleton header's hash
+     chain_ok  every headers[i+1] has number request.From+1+i and ParentHash == headers[i].Hash() *)
+Inductive hfill := HfNoFetch | HfRejected | HfAccepted (n : N).
+Definition headers_fill_rule (pending : bool) (count : N) (first_ok last_ok chain_ok : bool) : hfill :=
+  if negb pending then HfNoFetch
+  else if (count =? max_header_fetch) && first_ok && last_ok && chain_ok then HfAccepted count
+  else HfRejected.
